@@ -310,7 +310,8 @@ def cmp_fq(c, stats):
 
 # ------------------------------------------------------------------ noise samples (WNA and linear sensor)
 
-COUNT_SEQS = [[0], [1], [2], [3], [4], [0, 1], [1, 0, 2], [2, 3], [4, 4], [3, 1, 0, 2], [1, 1, 1, 1], [16], [17, 2], [33, 1, 16]]
+COUNT_SEQS = [[0], [1], [2], [3], [4], [0, 1], [1, 0, 2], [2, 3], [4, 4], [3, 1, 0, 2], [1, 1, 1, 1], [16], [17, 2], [33, 1, 16],
+              [255], [256, 257], [512, 1, 64], [128, 129]]      # round 4, class p: counts at chunk boundaries
 
 
 def pick_Tq(r, wide=False):
@@ -348,10 +349,13 @@ def gen_lsamp(ctx, g):
     for m in (1, 2, 3, 4):
         for seq in ([0], [1], [2, 3], [4, 0, 1]):
             cases.append((m, seq))
+    cases += [(2, [255]), (3, [256, 257]), (1, [512, 3]), (4, [128, 129, 64])]      # round 4, class p
     for _ in range(ctx.n(90, 1500)):
         cases.append((r.randint(1, 4), [r.randint(0, 4) for _ in range(r.randint(1, 4))]))
-    structured = {2: [[[1.0, 0.0], [0.0, 25.0]], [[1.0, 1.5], [1.5, 9.0]], [[25.0, 0.0], [0.0, 1.0]], [[0.25, -0.5], [-0.5, 16.0]]],
-                  3: [[[1.0, 0.5, 0.25], [0.5, 4.0, 1.0], [0.25, 1.0, 16.0]], [[1.0, 0.0, 0.0], [0.0, 100.0, 0.0], [0.0, 0.0, 10.0]]],
+    # round 4, class o: one large variance next to variances 1e-13 times smaller (a position next to biases): the contract
+    # S S^T = R is judged entry-wise relative to sqrt(R_ii R_jj), so the small block counts
+    structured = {2: [[[1e4, 0.0], [0.0, 1e-9]], [[1e-9, 0.0], [0.0, 1e4]], [[1.0, 0.0], [0.0, 25.0]], [[1.0, 1.5], [1.5, 9.0]], [[25.0, 0.0], [0.0, 1.0]], [[0.25, -0.5], [-0.5, 16.0]]],
+                  3: [[[1e4, 0.0, 0.0], [0.0, 1e-9, 5e-10], [0.0, 5e-10, 2e-9]], [[1.0, 0.5, 0.25], [0.5, 4.0, 1.0], [0.25, 1.0, 16.0]], [[1.0, 0.0, 0.0], [0.0, 100.0, 0.0], [0.0, 0.0, 10.0]]],
                   4: [[[1.0, 0.5, 0.0, 0.0], [0.5, 2.0, 0.5, 0.0], [0.0, 0.5, 4.0, 0.5], [0.0, 0.0, 0.5, 8.0]]]}
     fixedR = []
     for m, Rs in structured.items():
@@ -487,7 +491,7 @@ def gen_motion(ctx, g):
     out = []
     # (Dim, branch, batch sizes of the successive calls on one object)
     combos = [(d, br, Ns) for d in (1, 2, 3) for br in BRANCHES for Ns in (([1], [3]) if br[0] == 0 else ([2],))]
-    combos += [(d, (0, 0, 0), Ns) for d in (1, 2, 3) for Ns in ([0], [2], [4], [5, 2, 1], [1, 4, 0, 3], [3, 3, 1])]
+    combos += [(d, (0, 0, 0), Ns) for d in (1, 2, 3) for Ns in ([0], [2], [4], [5, 2, 1], [1, 4, 0, 3], [3, 3, 1], [256], [257, 2, 255])]
     for _ in range(ctx.n(120, 2000)):
         combos.append((r.choice([1, 2, 3]), r.choice(BRANCHES[:3]), [r.randint(0, 5) for _ in range(r.choice([1, 1, 2, 3]))]))
     for d, (skip, exo, exoskip), Ns in combos:
@@ -682,7 +686,8 @@ def gen_trans(ctx, g):
     combos = [(d, plan) for d in (1, 2, 3) for plan in ([(0, "rand")], [(1, "rand")], [(3, "rand")], [(4, "mixup")], [(2, "peak")], [(5, "far")],
                                                          [(5, "mixup"), (2, "rand"), (1, "rand")], [(1, "rand"), (4, "mixup"), (0, "rand"), (3, "far")],
                                                          [(3, "rand"), (3, "mixup"), (1, "peak")], [(6, "neardup")], [(4, "neardup"), (4, "neardup")],
-                                                         [(16, "rand")], [(17, "mixup"), (2, "rand")], [(32, "rand"), (1, "rand")], [(3, "underflow"), (2, "rand")])]
+                                                         [(16, "rand")], [(17, "mixup"), (2, "rand")], [(32, "rand"), (1, "rand")], [(3, "underflow"), (2, "rand")],
+                                                         [(255, "rand")], [(256, "mixup"), (257, "rand")], [(512, "rand"), (2, "rand")])]      # round 4, class p
     # the same batch twice on one object: both answers must be right (and equal)
     combos += [(d, [(4, "rand"), "repeat"]) for d in (1, 2, 3)]
     for _ in range(ctx.n(100, 1500)):
@@ -1214,6 +1219,17 @@ def cmp_sim(c, stats):
     a, b = rd.nat(), rd.nat()
     if a != b:
         c.probs.append(("corr", "model-vs-spec", "model cursor %d differs from min(L, calls since reset) = %d" % (a, b)))
+    # the counting specification SimSpec.run (theorem sim_refines_spec) against the check's own statement of the promise
+    rd.expect("spec")
+    served = rd.nat()
+    want = sim_oracle(c.st["xs"], ops)
+    got = []
+    for _ in ops:
+        t = rd.tok()
+        got.append(("flag", t == "T") if t in ("T", "F") else ("data", None if t == "g-" else int(t[1:])))
+    if got != want or served != a:
+        c.probs.append(("corr", "spec-vs-oracle", "the Lean specification SimSpec.run and the check's oracle differ on %s: %r vs %r" % ("".join(ops), got[:8], want[:8])))
+    stats["sim_spec_runs_compared"] = stats.get("sim_spec_runs_compared", 0) + 1
 
 
 # ------------------------------------------------------------------ simulated linear sensor
@@ -1429,6 +1445,32 @@ def cmp_sensor(c, stats):
         if bad:
             c.probs.append(("corr", "sensor", "model and implementation differ at call %d (%s) of %s" % (k, op, "".join(ops))))
             return
+    # the counting specification SensorSpec.run (theorem sensor_refines_spec) against the check's own statement of the promise
+    rd.expect("pos")
+    pos = rd.nat()
+    rd.expect("spec")
+    served, draws = rd.nat(), rd.nat()
+    L = len(c.st["xs"])
+    cur, dr, meas, want = 0, 0, None, []
+    for op in ops:
+        if op == "f":
+            if cur < L:
+                meas = (cur, dr); cur += 1; dr += 1; want.append("T")
+            else:
+                want.append("F")
+        elif op == "m":
+            want.append("m-" if meas is None else "m%d:%d" % meas)
+        elif op == "r":
+            cur = 0; want.append("T")
+        else:
+            if cur < L:
+                cur += 1; want.append("T")
+            else:
+                want.append("F")
+    got = [rd.tok() for _ in ops]
+    if got != want or served != cur or draws != dr or pos != dr * mm:
+        c.probs.append(("corr", "spec-vs-oracle", "the Lean specification SensorSpec.run and the check's oracle differ on %s: %r vs %r" % ("".join(ops), got[:8], want[:8])))
+    stats["sensor_spec_runs_compared"] = stats.get("sensor_spec_runs_compared", 0) + 1
 
 
 # ------------------------------------------------------------------ grid initialiser
